@@ -127,6 +127,20 @@ func Exec(s Sys, op Op) (r Res) {
 	return r
 }
 
+// CrumbOn makes the recorders leave a breadcrumb - the operation path being executed right now - next to
+// each trace file (<file>.crumb).  Some failures of the code under test kill the whole process (a stack
+// overflow in a structure that has become cyclic, "concurrent map writes"): the orchestrator then re-executes
+// the breadcrumb paths one by one in fresh processes to find the one that dies again.
+var CrumbOn = true
+
+func crumbTree(file string, path []Op) {
+	if !CrumbOn {
+		return
+	}
+	b, _ := json.Marshal(path)
+	os.WriteFile(file+".crumb", b, 0o644)
+}
+
 // Hung is set once an operation of the code under test did not return within
 // Watchdog (an endless loop, e.g. over a list that has become cyclic). The
 // operation is recorded as panicked - no specification allows that outcome -,
@@ -295,6 +309,7 @@ func (e *Explorer) exploreShard(file string, shard, shards int) (lines, leaves, 
 					p := make([]Op, len(nd.path)+1)
 					copy(p, nd.path)
 					p[len(nd.path)] = op
+					crumbTree(file, p)
 					r, pr := e.Replay(p)
 					c := &pnode{path: p, res: r, proj: pr, term: isTerm, id: next}
 					next++
@@ -333,6 +348,7 @@ func (e *Explorer) exploreShard(file string, shard, shards int) (lines, leaves, 
 		level = nl
 		depth++
 	}
+	os.Remove(file + ".crumb")
 	return
 }
 
@@ -340,6 +356,7 @@ func (e *Explorer) exploreShard(file string, shard, shards int) (lines, leaves, 
 // false) as a chain under the given writer state. Several chains can hang
 // under one root: see LinearSet.
 type LinearSet struct {
+	crumb *os.File
 	w     *bufio.Writer
 	f     *os.File
 	enc   *json.Encoder
@@ -356,6 +373,9 @@ func NewLinearSet(file string, zeroProj any) (*LinearSet, error) {
 		return nil, err
 	}
 	ls := &LinearSet{f: f, w: bufio.NewWriterSize(f, 1<<20), next: 2, zero: zeroProj}
+	if CrumbOn {
+		ls.crumb, _ = os.Create(file + ".crumb")
+	}
 	return ls, nil
 }
 
@@ -364,6 +384,10 @@ func NewLinearSet(file string, zeroProj any) (*LinearSet, error) {
 // whether the projection is recorded at that step (otherwise scalarProj is).
 func (ls *LinearSet) Run(s Sys, gen func(step int) (Op, bool)) (steps int, panicked bool) {
 	first := true
+	if ls.crumb != nil { // a new chain: the breadcrumb starts over (one op per line)
+		ls.crumb.Truncate(0)
+		ls.crumb.Seek(0, 0)
+	}
 	for step := 0; ; step++ {
 		op, ok := gen(step)
 		if !ok {
@@ -373,6 +397,10 @@ func (ls *LinearSet) Run(s Sys, gen func(step int) (Op, bool)) (steps int, panic
 		var pr any = ls.zero
 		if Hung.Load() {
 			break
+		}
+		if ls.crumb != nil {
+			b, _ := json.Marshal(op)
+			ls.crumb.Write(append(b, '\n'))
 		}
 		if !guarded(func() {
 			r = Exec(s, op)
@@ -421,6 +449,10 @@ func (ls *LinearSet) Close() (int, error) {
 	}
 	if err := ls.w.Flush(); err != nil {
 		return 0, err
+	}
+	if ls.crumb != nil {
+		ls.crumb.Close()
+		os.Remove(ls.crumb.Name()) // finished without dying: no breadcrumb needed
 	}
 	return len(ls.lines) + 1, ls.f.Close()
 }
